@@ -1,6 +1,7 @@
 package exec
 
 import (
+	runewidth "github.com/mattn/go-runewidth"
 	"encoding/json"
 	"fmt"
 	"strings"
@@ -45,17 +46,17 @@ func (in *Interp) installStubs8() {
 	S["github.com/mattn/go-isatty.IsTerminal"] = func(in *Interp, a []Value) Value { return st.F }
 	S["github.com/mattn/go-isatty.IsCygwinTerminal"] = func(in *Interp, a []Value) Value { return st.F }
 	S["github.com/mattn/go-runewidth.StringWidth"] = func(in *Interp, a []Value) Value {
-		// contract: printable ASCII has width 1 per byte; anything else is outside the
-		// model (the harness restricts column assertions to printable ASCII excerpts)
-		w := 0
-		for _, b := range in.bytesOf(a[0]) {
+		// printable ASCII has width 1 per byte (decided symbolically); for anything else the
+		// string is concretized and the real (trusted) library is run natively on it
+		bs := in.bytesOf(a[0])
+		for _, b := range bs {
 			printable := st.And(st.Bin(smt.OpBvUle, st.BVConstI(0x20, 8), b), st.Bin(smt.OpBvUle, b, st.BVConstI(0x7e, 8)))
 			if !in.Ctx.Branch(printable) {
-				abortf("unsupported: runewidth of a non-printable or non-ASCII character")
+				s := in.concretizeStr(a[0].(Str), "runewidth.StringWidth")
+				return st.BVConstI(int64(runewidth.StringWidth(s)), 64)
 			}
-			w++
 		}
-		return st.BVConstI(int64(w), 64)
+		return st.BVConstI(int64(len(bs)), 64)
 	}
 	S["runtime.Version"] = func(in *Interp, a []Value) Value { return Str{S: "go"} }
 	S["os.Environ"] = func(in *Interp, a []Value) Value { return SliceV{} }
